@@ -33,6 +33,18 @@ FIXED = [
     ("C05", "c7b2fd0", "a task unloading and loading the same buffer made the problem infeasible (z3 name clash)"),
     ("C06", "f16c01f", "unscheduled optional task with delay_in listed its worker in assigned_resources"),
     ("C11", "f16c01f", "task view listed a resource for an unscheduled task although the resource view has no assignment for it"),
+    ("C08", "6580d29", "resource utilization = busy * int(100/horizon): 98 at horizon 7, 24 instead of 25 at horizon 12, 0 above 100"),
+    ("C08", "92e50ad", "IndicatorNumberOfTardyTasks() named itself 'Total tardiness' and overwrote IndicatorTardiness() in solution.indicators"),
+    ("C08", "be16332", "IndicatorResourceUtilization / IndicatorNumberTasksAssigned always 0 for a CumulativeWorker (read the cumulative object's empty busy table)"),
+    ("C07", "23c8849", "optimizer='optimize' + optimize_priority='weight' with several objectives never passed the weighted objective to z3.Optimize (arbitrary feasible schedule returned)"),
+    ("C12", "286184b", "find_another_solution raised Z3Exception with any optional task (chained comparison against a string)"),
+    ("C13", "341d532", "incremental optimiser never popped its 'better than incumbent' bounds: second solve()/find_another_solution() returned False on a feasible problem"),
+    ("C13", "8db51a6", "export_to_smt2 raised AttributeError with optimizer='optimize'"),
+    ("C16", "8db51a6", "export_to_smt2 raised AttributeError with optimizer='optimize' (z3.Optimize has no to_smt2)"),
+    ("C13", "ebb7022", "second SchedulingSolver / second initialize() on a multi-objective problem raised ValueError (EquivalentIndicator registered twice)"),
+    ("C14", "ebb7022", "equivalent weighted objective/indicator were registered in whatever problem was active, not in the solved one"),
+    ("C16", "bee8218", "Excel task view: unscheduled task at -1 blanked its own name cell, at -2 and below silently dropped"),
+    ("C18", "939afbe", "ResourceNonDelay / TasksContiguous / IndicatorResourceIdle over a single task raised 'assertion And already added'"),
 ]
 
 OPEN = [
